@@ -155,8 +155,21 @@ def check_wrappers(rep, kind):
         whiles = [n for n in b['inner'] if n.get('kind') == 'WhileStmt']
         switches = [n for n in b['inner'] if n.get('kind') == 'SwitchStmt']
         ifs = [n for n in b['inner'] if n.get('kind') == 'IfStmt']
-        if len(whiles) != 1 or len(switches) != 1 or len(ifs) > 1:
-            raise AnalysisBroken('%s: unrecognised wrapper shape (while=%d switch=%d if=%d)' % (W, len(whiles), len(switches), len(ifs)))
+
+        def rows_eq(n):
+            c = cast.strip(n['inner'][0])
+            if c.get('kind') == 'BinaryOperator' and c.get('opcode') == '==':
+                l, r = cast.poly(c['inner'][0]), cast.poly(c['inner'][1])
+                if l == {('rows',): 1} and r and list(r) == [()]:
+                    return r[()]
+                if r == {('rows',): 1} and l and list(l) == [()]:
+                    return l[()]
+            return None
+        # the remainder dispatch may be written as an if / else-if chain on rows instead of a switch
+        chains = [n for n in ifs if rows_eq(n) is not None]
+        ifs = [n for n in ifs if rows_eq(n) is None]
+        if len(whiles) != 1 or len(switches) + len(chains) != 1 or len(ifs) > 1:
+            raise AnalysisBroken('%s: unrecognised wrapper shape (while=%d switch=%d if=%d rows-chain=%d)' % (W, len(whiles), len(switches), len(ifs), len(chains)))
 
         def kernel_call(node, want_arity):
             calls = [c for c in cast.find_all(node, 'CallExpr')]
@@ -215,12 +228,27 @@ def check_wrappers(rep, kind):
                     'batch loop must do "%s %s %s" (W=%d rows per call, %d table bytes per coefficient); found %s' % (var, op, pol, Wn, S, (got[0], got[1]) if got else 'nothing'),
                     key='%s|%s|step-%s' % (rid, name, var), sample='%s: g_tbls += %d*k' % (name, Wn * S) if var == 'g_tbls' and isa == 'avx512_gfni' else None)
         # (ii) the remainder switch
-        sw = switches[0]
-        scond = cast.poly(sw['inner'][0])
-        R.check(scond == {('rows',): 1}, '%s:%d' % (W, cast.line_of(sw)), 'remainder switch must switch on rows', key='%s|%s|switch-var' % (rid, name))
         arms = {}
         cur = []
-        sbody = sw['inner'][1]
+        if chains:
+            sw = chains[0]
+            node = sw
+            while node is not None and node.get('kind') == 'IfStmt':
+                v = rows_eq(node)
+                if v is None:
+                    raise AnalysisBroken('%s: the else-if chain after the loop tests something other than rows == <const>' % W)
+                if v in arms:
+                    raise AnalysisBroken('%s: rows == %d is tested twice in the chain' % (W, v))
+                arms[v] = [node['inner'][1], {'kind': 'BreakStmt'}]       # an if-arm cannot fall through
+                node = node['inner'][2] if len(node['inner']) > 2 else None
+            if node is not None:
+                arms['default'] = [node, {'kind': 'BreakStmt'}]
+            sbody = {'inner': []}
+        else:
+            sw = switches[0]
+            scond = cast.poly(sw['inner'][0])
+            R.check(scond == {('rows',): 1}, '%s:%d' % (W, cast.line_of(sw)), 'remainder switch must switch on rows', key='%s|%s|switch-var' % (rid, name))
+            sbody = sw['inner'][1]
         for n in sbody.get('inner', []):
             node = n
             labels = []
